@@ -321,6 +321,9 @@ func c01(c *an.Ctx) {
 			})
 		}
 	})
+	c.Check("R-POST", "leaf and list resolvers settle every destination: each iteration over the sources ends in Fill or Fail on its destination (rule shared with C14)", 3, func(o *an.O) {
+		ruleDestinationsSettled(c, o)
+	})
 	c01rest(c)
 }
 
